@@ -52,8 +52,10 @@ ASSUMPTIONS = ['arrays are float64 or int64 (int64 with int fills through Funcs.
                'and non-ASCII whitespace: the sem cases validate canonical spellings only, which is what the rewriter writes',
                'the tie to label indexing imports the model of property C10 (Locate/Locate.v, Locate/LocateFacts.v)',
                'expressions or labels with characters outside Latin-1 are outside the Coq model (strings are lists of 8-bit characters): '
-               'for them only the direct oracle speaks (K is skipped); a mixed slice such as X[`a`:3] is compared by K only '
-               '(the statement does not say whether the integer end is inclusive; the model proves it is: C16_mixed_label_start_int_stop)']
+               'for them only the direct oracle speaks (K is skipped)',
+               'K compares the rewritten TEXT up to an empty trailing step ([a:b:] = [a:b]), result-object identity for p = 0 / d = 0 and exception '
+               'classes: it is deliberately stricter than the oracle, which compares values, the container by value (span, names, series) and '
+               'the helper table by identity of its entries; a behaviour-preserving change of those details shows as `no-failing-input-found`']
 EXHAUSTIVE = {'quick': True, 'thorough': True}
 SOURCES = ['functions.py', 'core/containers.py']
 CASE_TIMEOUT = 30
@@ -62,7 +64,6 @@ FUNCS = ['lag', 'lead', 'diff', 'dlog']
 HELPER_NAMES = ['diff', 'dlog', 'exp', 'lag', 'lead', 'log']
 LEAK_NAMES = ['np', 'copy', 're', 'warnings', 'difflib', '_builtins', 'VectorContainer', 'abs', 'len', 'print']   # globals of fsic/core/containers.py, Python builtins
 SIG_NEST = 'C16|eval→_resolve_expression_indexes|label-not-alone-in-its-bracket'
-SIG_MIXED = 'C16|eval→_resolve_expression_indexes|mixed-slice-integer-end'
 SIG_NEGSTEP = 'C16|eval→_resolve_expression_indexes|label-slice-negative-step'
 SIG26 = 'C16|diff(x,0)|returns-x-not-zeros'
 SIG_LEAK = 'C16|eval(globals=None)|module-global-visible'
@@ -1303,10 +1304,6 @@ def oracle_expr(case, obs, fails):
     if case.get('model') and 'iterations' in names_of(case['ast']) and calls_of(case['ast']) and got[:2] in (['raise', 'ValueError'], ['raise', 'OverflowError']):
         bad(SIG_INTFILL, 'a helper applied to the integer series `iterations` of a model: the float fill value is cast to int64 even when nothing '
             'is stored (empty selection): eval(%r) = %s, expected %s' % (case['expr'], str(got)[:80], str(ref)[:80]))
-        return
-    if any(b[0] == 'mx' for b in brackets_of(case['ast'])):
-        bad(SIG_MIXED, 'the integer end of a mixed slice does not keep its Python meaning (a plain stop is incremented, a plain item goes through int()): '
-            'eval(%r) = %s, with the integer read as Python reads it %s' % (case['expr'], str(got)[:120], str(ref)[:120]))
         return
     if any(b[0] == 'ls' and b[3] is not None and int(b[3]) < 0 and (b[1] is not None or b[2] is not None) for b in brackets_of(case['ast'])):
         bad(SIG_NEGSTEP, 'a label slice with a negative step is not the inclusive descending slice (the stop label and the period after it are missing; a slice-valued start location starts at its FIRST period): '
